@@ -40,7 +40,8 @@ def shards(tier: str, seed: int) -> list:
     out = []
     for sm in SCALES + ["norm"]:
         for cls in CLASSES:
-            out.append({"scale": sm, "cls": cls})
+            for variant in ((0,) if tier == "quick" else (0, 1, 2, 3)):
+                out.append({"scale": sm, "cls": cls, "variant": variant})
     out.append({"scale": "containers", "cls": "normal"})
     return out
 
@@ -100,7 +101,7 @@ def run_shard(shard: dict, ctx, res, only=None) -> None:
         return _containers(shard, ctx, res, only)
     sm, cls = shard["scale"], shard["cls"]
     for shape in SHAPES:
-        x = _data(cls, shape, ctx.seed)
+        x = _data(cls, shape, ctx.seed + 1000 * int(shard.get("variant", 0)))
         axes = [None] if len(shape) == 1 else [None, 0, 1]
         if len(shape) == 1:
             axes = [None, 0]
